@@ -10,6 +10,19 @@ func init() {
 		"MsgHtmlTagNode", "NullNode", "BoolNode", "IntNode", "StringNode", "GlobalNode", "DataRefIndexNode", "DataRefKeyNode"} {
 		items = append(items, it("ast", r+".String"))
 	}
+	// a field of interface type (ast.Node / ast.ParentNode) read only through F.String() and F != nil: the parameters
+	// m_n_F_nil / m_n_F_String
+	for _, r := range []string{"DataRefExprNode", "LogNode", "MsgPlaceholderNode", "MsgPluralCaseNode", "CssNode", "IfCondNode", "ForNode"} {
+		items = append(items, it("ast", r+".String"))
+	}
+	// fmt.Sprintf with a constant format over %s / %q (and the interface fields above)
+	for _, r := range []string{"LetValueNode", "LetContentNode", "CallParamValueNode", "CallParamContentNode", "MsgNode"} {
+		items = append(items, it("ast", r+".String"))
+	}
+	// a field that is a slice of nodes, ranged over and read through String(): the parameter ms_n_F_String
+	for _, r := range []string{"FunctionNode", "ListLiteralNode", "SwitchCaseNode", "DataRefNode", "PrintDirectiveNode", "PrintNode", "SwitchNode", "MsgPluralNode", "SoyDocNode", "CallNode"} {
+		items = append(items, it("ast", r+".String"))
+	}
 	items = append(items, tbl("ast", "binaryPrecedence"), it("ast", "BinaryOpNode.precedence"),
 		cst("ast", "precTernary"), cst("ast", "precUnary"), cst("ast", "precPrimary"))
 	gtFamily("78-gotrans-astprint", items)
